@@ -160,3 +160,33 @@ package ociunify
 //@   ensures[closed-on-both] calls == [w.w[0].Close(), w.w[1].Close()] && (result == nil) == (calls[0].result == nil && calls[1].result == nil)
 //@ func (*unifiedBlobWriter).Cancel
 //@   ensures[cancelled-on-both] calls == [w.w[0].Cancel(), w.w[1].Cancel()] && (result == nil) == (calls[0].result == nil && calls[1].result == nil)
+
+// ---------------------------------------------------------------------------
+// Reads and listings ask a member for exactly what the caller asked the
+// unified registry for (the per-member closures handed to the read policy and
+// to `both`): the same method, the caller's arguments, and the member's
+// answer handed back as it is.
+//@ func (unifier).GetBlob$1
+//@   requires r != nil
+//@   ensures[asks-the-member-for-that-blob] calls == [r.GetBlob(ctx, repo, digest)] && result.x == calls[0].result.0 && result.err == calls[0].result.1
+//@ func (unifier).GetBlobRange$1
+//@   requires r != nil
+//@   ensures[asks-the-member-for-that-range] calls == [r.GetBlobRange(ctx, repo, digest, o0, o1)] && result.x == calls[0].result.0 && result.err == calls[0].result.1
+//@ func (unifier).GetManifest$1
+//@   requires r != nil
+//@   ensures[asks-the-member-for-that-manifest] calls == [r.GetManifest(ctx, repo, digest)] && result.x == calls[0].result.0 && result.err == calls[0].result.1
+//@ func (unifier).ResolveBlob$1
+//@   requires r != nil
+//@   ensures[asks-the-member-about-that-blob] calls == [r.ResolveBlob(ctx, repo, digest)] && result.x == calls[0].result.0 && result.err == calls[0].result.1
+//@ func (unifier).ResolveManifest$1
+//@   requires r != nil
+//@   ensures[asks-the-member-about-that-manifest] calls == [r.ResolveManifest(ctx, repo, digest)] && result.x == calls[0].result.0 && result.err == calls[0].result.1
+//@ func (unifier).Repositories$1
+//@   requires r != nil
+//@   ensures[asks-the-member-for-that-listing] calls == [r.Repositories(ctx, startAfter)] && result == calls[0].result
+//@ func (unifier).Tags$1
+//@   requires r != nil
+//@   ensures[asks-the-member-for-that-listing] calls == [r.Tags(ctx, repo, startAfter)] && result == calls[0].result
+//@ func (unifier).Referrers$1
+//@   requires r != nil
+//@   ensures[asks-the-member-for-that-listing] calls == [r.Referrers(ctx, repo, digest, artifactType)] && result == calls[0].result
